@@ -37,7 +37,8 @@ MUTANTS = [
     ("skchange/anomaly_detectors/mvcapa.py", "(-saving_values).argsort()", "saving_values.argsort()", "find_affected_components", "AX_sorted_unique"),
     ("skchange/anomaly_detectors/mvcapa.py", "point_saving, point_anomalies, point_alpha, point_betas", "point_saving, point_anomalies, sparse_alpha, sparse_betas",
      "run_mvcapa<dense/dense", "ghost-assert"),
-    ("skchange/base/base_interval_scorer.py", "np.any(cuts[:, -1] > n_samples)", "np.any(cuts[:, -1] > n_samples + 1)", "evaluate<L2Cost/optim", "pre["),
+    # (the single-site mutant `cuts[:, -1] > n_samples + 1` became equivalent when repair 61fead0 added the entry-wise range check in front of it)
+    ("skchange/base/base_interval_scorer.py", "n_samples = len(self._X)", "n_samples = len(self._X) + 1", "evaluate<L2Cost/optim", "pre["),
 ]
 
 
